@@ -25,13 +25,22 @@ Inductive op :=
 | OUpd (p : path)                                   (* Match.Update *)
 | OOnce (ps : list path)                            (* UpdateOnce for each path, one shared set *)
 | ONotif (pre : option gpath) (ups dels : list (option gpath))  (* Server.Update on a leaf *)
-| ONodes.                                           (* size of the trie *)
+| ONodes                                            (* size of the trie *)
+| OConc (once : bool) (tq : path) (hs : list nat) (p : path).
+    (* Update / UpdateOnce of p while a trigger client registered at tq (for
+       this operation only) starts, INSIDE its callback, a goroutine that calls
+       the removal closures hs, and watches whether that goroutine finishes
+       before the callback returns *)
 
 Inductive obs :=
 | RDone
 | ROffers (l : list (cid * nat))                    (* calls per client, sorted by client, counts > 0 *)
 | RNotif (l : list (cid * nat)) (hits : list cid)   (* + subscribers whose snapshot query selects a leaf *)
 | RNodes (n : nat)
+| RConc (l : list (cid * nat)) (triggered early : bool) (late : list cid)
+    (* offers; the trigger was called; the removals RETURNED while the update
+       was still in progress; clients being removed that were first called after
+       the removals had returned *)
 | RPanic.                                           (* equal to nothing *)
 
 (** ** canonical forms *)
@@ -62,6 +71,8 @@ Definition obs_eqb (a b : obs) : bool :=
   | ROffers x, ROffers y => list_eqb cn_eqb x y
   | RNotif x h, RNotif y g => list_eqb cn_eqb x y && list_eqb Nat.eqb h g
   | RNodes x, RNodes y => Nat.eqb x y
+  | RConc x t e l, RConc y t' e' l' =>
+      list_eqb cn_eqb x y && Bool.eqb t t' && Bool.eqb e e' && list_eqb Nat.eqb l l'
   | _, _ => false
   end.
 
@@ -112,6 +123,16 @@ Definition model_hits (hs : list hinfo) (pre : option gpath) (ups : list (option
                                      | None => []
                                      end) hs)).
 
+(** the trigger is a client of its own, never one of the numbered ones *)
+Definition trigger_id : cid := 1000%nat.
+
+Definition remove_handles (s : mst) (hs : list nat) : mst :=
+  fold_left (fun s h => match nth_error (m_handles s) h with
+                        | None => s
+                        | Some hi => MSt (remove_all (h_paths hi) (h_client hi) (m_trie s))
+                                         (set_dead h (m_handles s))
+                        end) hs s.
+
 Definition mstep (s : mst) (o : op) : mst * obs :=
   match o with
   | OAdd c q =>
@@ -131,6 +152,20 @@ Definition mstep (s : mst) (o : op) : mst * obs :=
   | ONotif pre ups dels =>
       (s, RNotif (tally (server_update (m_trie s) pre ups dels)) (model_hits (m_handles s) pre ups))
   | ONodes => (s, RNodes (nodes (m_trie s)))
+  | OConc once tq hs p =>
+      (* the callbacks run inside the read-locked section, so the removal
+         closures cannot even start their critical section before the call
+         returns (MatchProofs.concurrent_remove_blocked): everybody registered
+         at the start is called, nothing returns early, nobody is called late *)
+      let vs := fst (update_once (add_query tq trigger_id (m_trie s)) p (if once then Some [] else None)) in
+      let triggered := mem trigger_id vs in
+      (* a closure takes the lock iff it has at least one registration to remove *)
+      let valid := existsb (fun h => match nth_error (m_handles s) h with
+                                     | Some hi => match h_paths hi with [] => false | _ :: _ => true end
+                                     | None => false end) hs in
+      (remove_handles s hs,
+       RConc (tally (filter (fun c => negb (Nat.eqb c trigger_id)) vs)) triggered
+             (triggered && negb valid) [])
   end.
 
 (** ** the specification side
@@ -167,6 +202,14 @@ Fixpoint spec_entries (c : cid) (pre : gpath) (ents : list (option gpath)) : opt
 Definition same_pair (a b : sreg) : bool :=
   path_eqb (r_path a) (r_path b) && Nat.eqb (r_client a) (r_client b).
 
+Definition sstep_rem (s : sst) (h : nat) : sst :=
+      match nth_error (s_handles s) h with
+      | None => s
+      | Some rs =>
+          SSt (filter (fun r => negb (existsb (same_pair r) rs)) (s_reg s))
+              (s_gone s ++ rs) (s_handles s) (s_unspec s) (s_subclients s)
+      end.
+
 Definition sstep (s : sst) (o : op) : sst :=
   match o with
   | OAdd c q =>
@@ -180,13 +223,8 @@ Definition sstep (s : sst) (o : op) : sst :=
       | Some rs => SSt (s_reg s ++ rs) (s_gone s) (s_handles s ++ [rs]) un (c :: s_subclients s)
       | None => SSt (s_reg s) (s_gone s) (s_handles s ++ [[]]) (c :: un) (c :: s_subclients s)
       end
-  | ORem h =>
-      match nth_error (s_handles s) h with
-      | None => s
-      | Some rs =>
-          SSt (filter (fun r => negb (existsb (same_pair r) rs)) (s_reg s))
-              (s_gone s ++ rs) (s_handles s) (s_unspec s) (s_subclients s)
-      end
+  | ORem h => sstep_rem s h
+  | OConc _ _ hs _ => fold_left (fun s h => sstep_rem s h) hs s
   | _ => s
   end.
 
@@ -258,6 +296,21 @@ Definition kstep (s : sst) (o : op) (r : obs) : list N :=
   | ONotif pre ups dels, RNotif l hits =>
       let ps := map (fun p => notif_prefix pre ++ p) (notif_paths ups dels) in
       flat_map (judge s true (List.length ps) ps l hits) (all_clients s l hits)
+  | OConc once tq hs p, RConc l _ _ late =>
+      (* Clients whose registrations the removals leave alone are judged as
+         for a sequential update.  A client being removed may or may not get
+         this update (either order of the two calls is a correct outcome), but
+         it must not be called after its removal has returned. *)
+      let victims := flat_map (fun h => match nth_error (s_handles s) h with
+                                        | Some rs => map r_client rs | None => [] end) hs in
+      let after := fold_left (fun s h => sstep_rem s h) hs s in
+      flat_map (fun c => if mem c victims then []
+                         else judge s once 1 [p] l [] c) (all_clients s l []) ++
+      flat_map (fun c => if mem c (s_unspec s) then []
+                         else match regs_of c [p] (s_reg after) with
+                              | [] => [4%N]
+                              | _ :: _ => []
+                              end) late
   | ONodes, RNodes n =>
       if Nat.eqb n (spec_nodes s) || negb (match s_unspec s with [] => true | _ :: _ => false end)
       then [] else [6%N]
